@@ -125,3 +125,41 @@ Theorem C03_primitive_iteration_greedy_f32 : forall (p : profile) meth s d M i s
     /\ PInv s' M' (without a L).
 Proof. exact prim_iter_greedy_f32. Qed.
 Print Assumptions C03_primitive_iteration_greedy_f32.
+
+(* ---- the binary heap of the generic algorithm (src/queue.rs): heap order ----
+   the top has minimal priority; pop, set_priority and heapify keep / establish
+   the order (strict weak order on the priorities) *)
+Require Import KV.Model.Heap KV.Proofs.HeapInv.
+Theorem C03_heap_top_min : forall (T : Type) (ltb : T -> T -> bool),
+  (forall a, ltb a a = false) ->
+  (forall a b c, ltb a b = false -> ltb b c = false -> ltb a c = false) ->
+  forall (n : nat) (h : heap T), HInv n h -> HOrd ltb h ->
+  forall k v v0, pp h k = Some v -> pp h 0 = Some v0 -> ltb v v0 = false.
+Proof. exact top_min. Qed.
+Print Assumptions C03_heap_top_min.
+
+Theorem C03_heap_pop_ordered : forall (T : Type) (ltb : T -> T -> bool),
+  (forall a, ltb a a = false) ->
+  (forall a b c, ltb a b = true -> ltb b c = true -> ltb a c = true) ->
+  forall (n : nat) (h : heap T) (f : nat) (h' : heap T),
+  HInv n h -> HOrd ltb h -> h_pop ltb h = Ok (Some f, h') -> HOrd ltb h'.
+Proof. exact pop_ord. Qed.
+Print Assumptions C03_heap_pop_ordered.
+
+Theorem C03_heap_set_priority_ordered : forall (T : Type) (ltb : T -> T -> bool),
+  (forall a, ltb a a = false) ->
+  (forall a b c, ltb a b = true -> ltb b c = true -> ltb a c = true) ->
+  (forall a b c, ltb a b = false -> ltb b c = false -> ltb a c = false) ->
+  forall (n : nat) (h : heap T) (o : nat) (v : T) (h' : heap T),
+  HInv n h -> HOrd ltb h -> inh h o -> h_set_priority ltb h o v = Ok h' -> HOrd ltb h'.
+Proof. exact set_priority_ord. Qed.
+Print Assumptions C03_heap_set_priority_ordered.
+
+Theorem C03_heapify_ordered : forall (T : Type) (ltb : T -> T -> bool),
+  (forall a, ltb a a = false) ->
+  (forall a b c, ltb a b = true -> ltb b c = true -> ltb a c = true) ->
+  forall (n : nat) (h0 : heap T) (pr : list T) (h' : heap T),
+  HInv n h0 -> length (h_heap h0) = n -> length pr = n ->
+  h_heapify_post ltb h0 pr = Ok h' -> HOrd ltb h'.
+Proof. exact heapify_post_ord. Qed.
+Print Assumptions C03_heapify_ordered.
